@@ -727,8 +727,27 @@ fn front_door_case(rng: &mut Rng, rep: &mut Report) {
     }
     rep.count("front_door.batch");
     if a.col.data() != bcv.col.data() || a.dep.data().iter().map(|z| z.to_bits()).ne(bcv.dep.data().iter().map(|z| z.to_bits())) {
-        rep.violation("image.batch_differs_from_render", "Batch::render produced different buffers from render() for the same inputs".into(), sc.json());
-        return;
+        // Not the same bits as render(): the statement asks for the ideal
+        // image from every entry point, not for identical bits between them,
+        // so the Batch image is judged by the ideal-image oracle on its own.
+        rep.count("front_door.batch_bits_differ_from_render(judged by the oracle instead)");
+        let scb = Scene::<Vec3> {
+            cs: ClipScene { verts: sc.cs.verts.clone(), tris: sc.cs.tris.clone() },
+            bw: sc.bw,
+            bh: sc.bh,
+            win: (0, 0, sc.bw, sc.bh),
+            vp: sc.vp,
+            flip: sc.flip,
+            tk: if col_only { Tk::ColOwned } else { Tk::FbOwned },
+            prior_random: sc.prior_random,
+            prior_seed: sc.prior_seed,
+            gen_mode: 9,
+            depth_scale: sc.depth_scale,
+        };
+        let orb = build_oracle(&scb);
+        if !orb.unmappable && !judge_image(rep, &scb, &orb, &bcv, 1, !col_only) {
+            return;
+        }
     }
     // Camera: model-space vertices, identity world/view transforms, a real
     // projection; compare with render() given the composed matrix.
@@ -775,8 +794,8 @@ fn front_door_case(rng: &mut Rng, rep: &mut Report) {
         rep.count("front_door.camera_drew_fragments");
     }
     if c1.col.data() != c2.col.data() || c1.dep.data().iter().map(|z| z.to_bits()).ne(c2.dep.data().iter().map(|z| z.to_bits())) {
-        rep.violation("image.camera_differs_from_render", "Camera::render produced different buffers from render() with the composed matrix and the camera's viewport".into(), sc.json());
-        return;
+        // as for Batch: identical bits are not a clause; the oracle below decides
+        rep.count("front_door.camera_bits_differ_from_render(judged by the oracle alone)");
     }
     // and the camera image itself is judged by the ideal-image oracle: build
     // the equivalent clip-space scene from the composed matrix
